@@ -378,6 +378,11 @@ func runC18(c *Ctx) {
 						if cc := ir.CallOf(in); cc != nil && callTo(get, put)(in) {
 							continue
 						}
+						// an error (the verdict of a write into the buffer) is
+						// not the buffer's memory: as for the results above
+						if types.Identical((*op).Type(), types.Universe.Lookup("error").Type()) {
+							continue
+						}
 						if fromPool(*op) {
 							bad = append(bad, c.nm(fn)+" uses the pooled buffer at "+c.at(in)+" after putting it back at "+c.at(p))
 						}
